@@ -278,23 +278,36 @@ def decodeProduce (apiVersion : Int) : Rd Val :=
     pure (.list rs)
   else fail .valueError
 
-def decodeFetch (apiVersion : Int) : Rd Val := do
-  let numTopics ←
-    if apiVersion == 0 then do
-      let [_corr, n] ← relativeUnpack c12Fmt_fetch_0 | fail .valueError
-      pure n
-    else if apiVersion ≥ 2 then do
-      let [_corr, _throttle, n] ← relativeUnpack c12Fmt_fetch_1 | fail .valueError
-      pure n
-    else fail .unboundLocal
-  let tss ← forRange numTopics do
-    let topic ← readShortAscii
-    let [numPartitions] ← relativeUnpack c12Fmt_fetch_2 | fail .valueError
-    forRange numPartitions do
-      let [partition, error, hw] ← relativeUnpack c12Fmt_fetch_3 | fail .valueError
-      let messageSet ← readIntString
-      pure (Val.list [.bytes topic, .int partition, .int error, .int hw, .mset messageSet])
+/-- the head of `decode_fetch_response`: correlation id, [throttle time,] topic count -/
+def fetchHead (apiVersion : Int) : Rd Int :=
+  if apiVersion == 0 then do
+    let [_corr, n] ← relativeUnpack c12Fmt_fetch_0 | fail .valueError
+    pure n
+  else if apiVersion ≥ 2 then do
+    let [_corr, _throttle, n] ← relativeUnpack c12Fmt_fetch_1 | fail .valueError
+    pure n
+  else fail .unboundLocal
+
+/-- one iteration of the partition loop of `decode_fetch_response` -/
+def fetchPartition (topic : List UInt8) : Rd Val := do
+  let [partition, error, hw] ← relativeUnpack c12Fmt_fetch_3 | fail .valueError
+  let messageSet ← readIntString
+  pure (Val.list [.bytes topic, .int partition, .int error, .int hw, .mset messageSet])
+
+/-- one iteration of the topic loop of `decode_fetch_response` -/
+def fetchTopic : Rd (List Val) := do
+  let topic ← readShortAscii
+  let [numPartitions] ← relativeUnpack c12Fmt_fetch_2 | fail .valueError
+  forRange numPartitions (fetchPartition topic)
+
+/-- the topic / partition loops of `decode_fetch_response` -/
+def fetchTopics (numTopics : Int) : Rd Val := do
+  let tss ← forRange numTopics fetchTopic
   pure (.list tss.flatten)
+
+def decodeFetch (apiVersion : Int) : Rd Val := do
+  let numTopics ← fetchHead apiVersion
+  fetchTopics numTopics
 
 def decodeOffset : Rd Val := do
   let [_corr, numTopics] ← relativeUnpack c12Fmt_offset_0 | fail .valueError
